@@ -53,6 +53,12 @@ class AnalysisError(Exception):
     """The analysis itself cannot proceed (vanished anchor, parse error...)."""
 
 
+class ShapeError(AnalysisError):
+    """An anchored function exists but the mechanism a rule looks for inside it is
+    gone or unrecognisable.  Reported as a violation of the property's SHAPE rule
+    (the mechanism the property relies on was removed), not as an analysis error."""
+
+
 def walk_shallow(node, include_root=True):
     """ast.walk that does not descend into nested function/class scopes."""
     stack = [node]
